@@ -61,6 +61,10 @@ func (c20Check) Units(tier string, seed int64) []Unit {
 		add("aof", 4, 30)
 		add("snap", 4, 30)
 	}
+	for i := range c20SchedScenarios(tier) {
+		b, _ := json.Marshal(c20Args{Root: i, Mode: "sched"})
+		us = append(us, Unit{Name: fmt.Sprintf("sched-%d", i), Args: b})
+	}
 	return us
 }
 
@@ -199,10 +203,36 @@ func allDBs(a, b *State) []int {
 	return out
 }
 
+// c20SchedScenarios: two clients that have selected different databases write at the same time with the append-only log
+// on; every interleaving (preemption-bounded) must leave a log from which a restart restores what some serial order of
+// the same commands restores - each key in the database it was written to.
+func c20SchedScenarios(tier string) []*SchedScenario {
+	bound := 2
+	if tier == "thorough" {
+		bound = 3
+	}
+	cfg := InstCfg{DataDir: "/data", AOFSync: "always"}
+	return []*SchedScenario{
+		{Name: "db0 SET a || db1 SET b, then restart from the log", Cfg: cfg, Setup: []Action{cmdOn(1, "SELECT", "1"), cmdOn(0, "SET", "seed", "0")},
+			Threads: [][]Action{{cmdOn(0, "SET", "a", "zero")}, {cmdOn(1, "SET", "b", "one")}}, Bound: bound, MaxExec: 60000, Restorable: true, RestoreAOF: true},
+		{Name: "db0 SET a ; SET c || db1 SET b ; SET d, then restart from the log", Cfg: cfg, Setup: []Action{cmdOn(1, "SELECT", "1"), cmdOn(1, "SET", "seed", "1")},
+			Threads: [][]Action{{cmdOn(0, "SET", "a", "zero"), cmdOn(0, "SET", "c", "zero")}, {cmdOn(1, "SET", "b", "one"), cmdOn(1, "SET", "d", "one")}}, Bound: bound, MaxExec: 60000, Restorable: true, RestoreAOF: true},
+		{Name: "db12 RPUSH l || db0 DEL l || db1 INCR n, then restart from the log", Cfg: cfg, Setup: []Action{cmdOn(0, "SELECT", "12"), cmdOn(2, "SELECT", "1"), cmdOn(1, "RPUSH", "l", "x")},
+			Threads: [][]Action{{cmdOn(0, "RPUSH", "l", "y")}, {cmdOn(1, "DEL", "l")}, {cmdOn(2, "INCR", "n")}}, Bound: bound - 1, MaxExec: 60000, Restorable: true, RestoreAOF: true},
+	}
+}
+
 func (c20Check) Run(u Unit, w *Worker) UnitResult {
 	var a c20Args
 	json.Unmarshal(u.Args, &a)
 	res := UnitResult{Stats: map[string]int64{}}
+	if a.Mode == "sched" {
+		sc := c20SchedScenarios(u.Tier)[a.Root]
+		if w.Case(sc.Name) {
+			judgeScenario("C20", sc, &res)
+		}
+		return res
+	}
 	alpha := c20Alphabet(a.Mode)
 	cfg := c20Cfg(a.Mode)
 	fn := map[string]string{} // (content of i, action) -> reply + new content of i
